@@ -115,7 +115,8 @@ func genC32(t *rapid.T) c32Case {
 		case "pubshort", "subshort":
 			op.Name = genShort(t)
 		case "pubtool", "subtool":
-			op.Name = rapid.SampledFrom(append(c32Names, "plain/name")).Draw(t, "toolname")
+			// (names of one octet are not short topic names: those have exactly two)
+			op.Name = rapid.SampledFrom(append(c32Names, "plain/name", "a", "7")).Draw(t, "toolname")
 		case "subwild":
 			op.Name = rapid.SampledFrom([]string{"#", "p/#", "dev/+/data", "+"}).Draw(t, "filter")
 			wild = true
@@ -126,7 +127,7 @@ func genC32(t *rapid.T) c32Case {
 			case !wild && rapid.Bool().Draw(t, "injshort"):
 				op.Name = genShort(t)
 			default:
-				op.Name = rapid.SampledFrom(c32Names).Draw(t, "injname")
+				op.Name = rapid.SampledFrom(append(c32Names, "a", "7")).Draw(t, "injname")
 			}
 		}
 		switch op.Kind {
@@ -331,7 +332,7 @@ func runC32(c c32Case) (r vf.Result) {
 func TestC32(t *testing.T) {
 	vf.Check(t, vf.Prop[c32Case]{
 		ID: "C32", Name: "routing-consistent", Bubble: true,
-		Rule: "real client and real gateway sharing one predefined-topic configuration (entries for '*', the client's own ID (7, 23, 24 or 30 octets long, or non-ASCII), and a second client - sometimes one whose ID is the first 23 octets of the first - over IDs 1-4 and 5 names, with overlaps and shadowing; sometimes the repository's topics.yaml shape), client ID inside or outside the configuration; 2-10 operations: PublishPredefined(id), Publish(2-octet name over all byte values that are valid MQTT), SubscribePredefined(id), Subscribe(2-octet name), Subscribe(wildcard filter: #, p/#, dev/+/data, +), the decision logic of bisquitt-pub / bisquitt-sub (GetTopicID(name), then the predefined call, else register/subscribe by name), and broker publishes on predefined and short names that are subscribed (exactly or by a wildcard; three in four on a name subscribed earlier). Non-trivial = an operation, or a broker publish the gateway forwards, that uses an ID defined for both the client and '*'; distinct by case.",
+		Rule: "real client and real gateway sharing one predefined-topic configuration (entries for '*', the client's own ID (7, 23, 24 or 30 octets long, or non-ASCII), and a second client - sometimes one whose ID is the first 23 octets of the first - over IDs 1-4 and 5 names, with overlaps and shadowing; sometimes the repository's topics.yaml shape), client ID inside or outside the configuration; 2-10 operations: PublishPredefined(id), Publish(2-octet name over all byte values that are valid MQTT), SubscribePredefined(id), Subscribe(2-octet name), Subscribe(wildcard filter: #, p/#, dev/+/data, +), the decision logic of bisquitt-pub / bisquitt-sub (GetTopicID(name), then the predefined call, else register/subscribe by name), and broker publishes on predefined names, short names and names of a single octet that are subscribed (exactly or by a wildcard; three in four on a name subscribed earlier). Non-trivial = an operation, or a broker publish the gateway forwards, that uses an ID defined for both the client and '*'; distinct by case.",
 		Assumptions: []string{"2-octet names containing '+', '#', NUL or invalid UTF-8 are not generated (C24 requires the gateway to refuse them)", "oracle: the broker-side topic equals the name the client meant (its own GetTopicName / the short name / the name given to the tool logic); the handler's topic equals the broker's, and at least one handler runs, at most one per matching filter the client holds"},
 		Gen:         genC32,
 		Run:         runC32,
